@@ -145,7 +145,10 @@ func (m *RWMutex) RUnlock() {
 	id := int32(s.cur.ID)
 	for i, r := range m.readers {
 		if r == id {
-			m.readers = append(m.readers[:i], m.readers[i+1:]...)
+			for zz := i; zz+1 < len(m.readers); zz++ {
+				m.readers[zz] = m.readers[zz+1]
+			}
+			m.readers = m.readers[:len(m.readers)-1]
 			break
 		}
 	}
@@ -324,7 +327,10 @@ func (p *Pool) Get() any {
 		}
 		if idx >= 0 {
 			it := p.items[idx]
-			p.items = append(p.items[:idx], p.items[idx+1:]...)
+			for zz := idx; zz+1 < len(p.items); zz++ {
+				p.items[zz] = p.items[zz+1]
+			}
+			p.items = p.items[:len(p.items)-1]
 			it.flag.Load() // acquire: Put(x) happens-before Get(x)
 			s.FaultsFired[FBufReuse]++
 			return it.v
